@@ -5,8 +5,11 @@ the same random operation history (index, slice, read_data, new channel/file ite
 Oracle (real code only): every non-iterator op equals the same op on a freshly opened file; every iterator
 delivers exactly the chunk sequence a fresh, uninterrupted iterator delivers.
 """
+import io
 import os
 import sys
+
+import numpy as np
 
 sys.path.insert(0, os.path.dirname(os.path.dirname(os.path.abspath(__file__))))
 import canon
@@ -96,6 +99,67 @@ def check_history(ctx, model, nptdms, data, ops, lens, stats):
     return dis, vio
 
 
+def scaled_histories(ctx, model, nptdms, stats):
+    """Histories on channels that carry a scaling, mixing scaled reads (index, slice, read_data) with raw reads
+    (read_data(scaled=False)): what an earlier operation cached (scaled chunks) must not leak into a later raw read, and vice
+    versa. Oracle: the same operation on a freshly opened file (real code only)."""
+    import struct
+    import gen_scaling as gs
+    rnd = ctx.rnd
+    out = []
+    stats["scaled_histories"] = 0
+    for _ in range(ctx.n(12, 400)):
+        n1, n2, n3 = rnd.randint(2, 5), rnd.randint(1, 4), rnd.randint(0, 3)
+        vals = [struct.pack("<i", rnd.randint(-50, 50)) for _ in range(n1 + n2 + n3)]
+        props, _graph = gs.draw_graph(rnd, n=rnd.randint(1, 2), types=["Linear", "Polynomial"])
+        segs = gs.one_channel_file(3, [vals[:n1], vals[n1:n1 + n2], vals[n1 + n2:]], props, [], [], big=rnd.random() < 0.3)
+        e = model.ask(gen_files.to_line(segs))
+        if not e.get("ok") or not e.get("wf"):
+            continue
+        data = bytes.fromhex(e["file"])
+        n = n1 + n2 + n3
+        ops = []
+        for _k in range(rnd.randint(3, 10)):
+            kind = rnd.choice(["I", "I", "S", "U", "U", "T"])
+            if kind == "I":
+                ops.append(("I", rnd.randint(-n, n - 1)))
+            elif kind == "S":
+                ops.append(("S", rnd.choice([None] + list(range(-n, n + 1))), rnd.choice([None] + list(range(-n, n + 1)))))
+            else:
+                off = rnd.randint(0, n)
+                ops.append((kind, off, rnd.choice([None, 1, 2, 3, n])))
+
+        def do(ch, op):
+            try:
+                if op[0] == "I":
+                    v = ch[op[1]]
+                    return ("value", str(np.asarray(v).dtype), np.asarray(v).tobytes().hex())
+                if op[0] == "S":
+                    v = ch[op[1]:op[2]]
+                elif op[0] == "U":
+                    v = ch.read_data(op[1], op[2], scaled=False)
+                else:
+                    v = ch.read_data(op[1], op[2])
+                return ("array", str(np.asarray(v).dtype), np.asarray(v).tobytes().hex())
+            except Exception as ex:  # noqa
+                return ("error", type(ex).__name__)
+        stats["scaled_histories"] += 1
+        with nptdms.TdmsFile.open(io.BytesIO(data)) as f:
+            ch = f["g"]["c"]
+            for k, op in enumerate(ops):
+                got = do(ch, op)
+                stats["ops"] += 1
+                with nptdms.TdmsFile.open(io.BytesIO(data)) as f2:
+                    exp = do(f2["g"]["c"], op)
+                if got != exp:
+                    out.append(Violation("scaled channel: op %d %r after %r differs from the same op on a freshly opened file (got %s %s, fresh %s %s)" % (
+                        k, op, ops[:k], got[0], got[1], exp[0], exp[1]), dict(kind="scaled-history", file=data.hex(), ops=[list(o) for o in ops], at=k)))
+                    break
+        if len(out) >= 3:
+            break
+    return out
+
+
 def run(ctx):
     nptdms = ctx.nptdms()
     model = ctx.get_model() if ctx.build_ok else None
@@ -140,11 +204,13 @@ def run(ctx):
         if ctx.tier == "quick" and ctx.elapsed() > 45:
             ctx.notes.append("stopped after %d files (time budget)" % fs.drawn)
             break
+    if len(violations) < 5:
+        violations += scaled_histories(ctx, model, nptdms, stats)
     return dict(violations=violations, disagreements=disagreements,
                 coverage=dict(evaluations=stats["ops"], distinct_nontrivial=stats["with_iter_interleaving"],
                               rule=RULE_FILES + "; per file two random histories of 1-30 operations (for channels longer than 100 values two more that read the tail of every channel after touching the others) (index / slice / read_data / new channel iterator / new "
                                    "file iterator / next on any of up to 3 live iterators); non-trivial = distinct (file, history) pairs in which a direct read "
-                                   "happens between two next() calls of a live iterator",
+                                   "happens between two next() calls of a live iterator; plus histories on channels with Linear / Polynomial scalings mixing scaled and raw reads",
                               samples=samples, histories=stats["histories"], files=fs.drawn, feature_counts=dict(sorted(fs.feats.items()))))
 
 
